@@ -410,3 +410,110 @@ Proof.
   intro x. rewrite (J2 x), in_nseq.
   assert (A : lo <= x < lo + N.of_nat (N.to_nat (hi - lo)) <-> lo <= x < hi) by lia. tauto.
 Qed.
+
+(* ---- set operations ---- *)
+Lemma and_arrays_nil_l l2 r : bm_and_arrays [] l2 r = r.
+Proof. destruct l2; reflexivity. Qed.
+Lemma and_arrays_nil_r l1 r : bm_and_arrays l1 [] r = r.
+Proof. destruct l1; reflexivity. Qed.
+Lemma and_arrays_cons v1 t1 v2 t2 r :
+  bm_and_arrays (v1 :: t1) (v2 :: t2) r =
+  if v1 =? v2 then bm_and_arrays t1 t2 (fst (bm_add r v1))
+  else if v1 <? v2 then bm_and_arrays t1 (v2 :: t2) r
+  else bm_and_arrays (v1 :: t1) t2 r.
+Proof. reflexivity. Qed.
+
+Lemma and_arrays_spec l1 : forall l2 r, sorted l1 -> sorted l2 -> (forall v, In v l1 -> v < 65536) -> bm_Inv r ->
+  let s' := bm_and_arrays l1 l2 r in
+  bm_Inv s' /\ forall x, In x (bm_abs s') <-> (In x l1 /\ In x l2) \/ In x (bm_abs r).
+Proof.
+  induction l1 as [|v1 t1 IH1]; intros l2 r S1 S2 B1 Hr.
+  - rewrite and_arrays_nil_l. split; [exact Hr|]. intro x. cbn [In]. tauto.
+  - revert r Hr. induction l2 as [|v2 t2 IH2]; intros r Hr.
+    + rewrite and_arrays_nil_r. split; [exact Hr|]. intro x. cbn [In]. tauto.
+    + rewrite and_arrays_cons.
+      destruct (sorted_cons_inv _ _ S1) as [S1' H1]. destruct (sorted_cons_inv _ _ S2) as [S2' H2].
+      destruct (N.eqb_spec v1 v2) as [<-|Hne].
+      * destruct (add_spec r v1 Hr (B1 v1 (or_introl eq_refl))) as (I1 & I2 & _).
+        destruct (IH1 t2 _ S1' S2' (fun w Hw => B1 w (or_intror Hw)) I1) as [J1 J2]. split; [exact J1|].
+        intro x. rewrite (J2 x), (I2 x). cbn [In]. split.
+        -- intros [[A B]|[A|A]]; [left; tauto|left; subst; tauto|right; exact A].
+        -- intros [[[A|A] [B|B]]|A];
+             [right; left; congruence|right; left; congruence|right; left; congruence|left; tauto|right; right; exact A].
+      * destruct (v1 <? v2) eqn:E.
+        -- destruct (IH1 (v2 :: t2) r S1' S2 (fun w Hw => B1 w (or_intror Hw)) Hr) as [J1 J2]. split; [exact J1|].
+           intro x. rewrite (J2 x). cbn [In]. split.
+           ++ intros [[A B]|A]; [left; tauto|right; exact A].
+           ++ intros [[[A|A] [B|B]]|A];
+                [congruence|specialize (H2 _ B); lia|left; split; [exact A|left; exact B]|left; split; [exact A|right; exact B]|right; exact A].
+        -- destruct (IH2 S2' r Hr) as [J1 J2]. split; [exact J1|].
+           intro x. rewrite (J2 x). cbn [In]. split.
+           ++ intros [[A B]|A]; [left; tauto|right; exact A].
+           ++ intros [[[A|A] [B|B]]|A];
+                [congruence|left; split; [left; exact A|exact B]|specialize (H1 _ A); lia|left; split; [right; exact A|exact B]|right; exact A].
+Qed.
+
+Definition inter_post (s' a b : bm_state) : Prop :=
+  bm_Inv s' /\ forall x, In x (bm_abs s') <-> In x (bm_abs a) /\ In x (bm_abs b).
+
+Lemma and_general a b : bm_Inv a -> bm_Inv b ->
+  inter_post (fold_left (fun r v => if bm_contains b v then fst (bm_add r v) else r) (bm_abs a) bm_create) a b.
+Proof.
+  intros Ha Hb.
+  destruct (fold_add_if_spec (bm_contains b) (bm_abs a) bm_create inv_create (fun v Hv => inv_bound a v Ha Hv)) as [J1 J2].
+  split; [exact J1|]. intro x. rewrite (J2 x), abs_create. cbn [In]. split.
+  - intros [[A B]|[]]. split; [exact A|]. apply (proj1 (contains_spec b x Hb (inv_bound a x Ha A))). exact B.
+  - intros [A B]. left. split; [exact A|]. apply (proj2 (contains_spec b x Hb (inv_bound a x Ha A))). exact B.
+Qed.
+
+Theorem and_spec a b : bm_Inv a -> bm_Inv b ->
+  bm_Inv (bm_and a b) /\ forall x, In x (bm_abs (bm_and a b)) <-> In x (bm_abs a) /\ In x (bm_abs b).
+Proof.
+  intros Ha Hb. unfold bm_and. destruct (bm_is_array a && bm_is_array b).
+  - destruct (and_arrays_spec (bm_iter_all a) (bm_iter_all b) bm_create (inv_sorted a Ha) (inv_sorted b Hb)
+                (fun v Hv => inv_bound a v Ha Hv) inv_create) as [J1 J2].
+    split; [exact J1|]. intro x. rewrite (J2 x), abs_create. cbn [In]. unfold bm_abs. tauto.
+  - destruct (bm_card a <? bm_card b).
+    + apply (and_general a b Ha Hb).
+    + destruct (and_general b a Hb Ha) as [J1 J2]. split; [exact J1|]. intro x. rewrite (J2 x). tauto.
+Qed.
+
+Theorem or_spec a b : bm_Inv a -> bm_Inv b ->
+  bm_Inv (bm_or a b) /\ forall x, In x (bm_abs (bm_or a b)) <-> In x (bm_abs a) \/ In x (bm_abs b).
+Proof.
+  intros Ha Hb. unfold bm_or. rewrite clone_eq.
+  destruct (fold_add_spec (bm_iter_all b) a Ha (fun v Hv => inv_bound b v Hb Hv)) as [J1 J2].
+  split; [exact J1|]. intro x. rewrite (J2 x). unfold bm_abs. tauto.
+Qed.
+
+Lemma diff_general a b r : bm_Inv a -> bm_Inv b -> bm_Inv r ->
+  let s' := fold_left (fun r v => if bm_contains b v then r else fst (bm_add r v)) (bm_abs a) r in
+  bm_Inv s' /\ forall x, In x (bm_abs s') <-> (In x (bm_abs a) /\ ~ In x (bm_abs b)) \/ In x (bm_abs r).
+Proof.
+  intros Ha Hb Hr. cbv zeta.
+  rewrite (fold_left_ext _ (fun r v => if negb (bm_contains b v) then fst (bm_add r v) else r))
+    by (intros y z; destruct (bm_contains b z); reflexivity).
+  destruct (fold_add_if_spec (fun v => negb (bm_contains b v)) (bm_abs a) r Hr (fun v Hv => inv_bound a v Ha Hv)) as [J1 J2].
+  split; [exact J1|]. intro x. rewrite (J2 x). split.
+  - intros [[A B]|A]; [left|right; exact A]. split; [exact A|]. intro C.
+    apply (proj2 (contains_spec b x Hb (inv_bound a x Ha A))) in C. rewrite C in B. discriminate B.
+  - intros [[A B]|A]; [left|right; exact A]. split; [exact A|].
+    destruct (bm_contains b x) eqn:C; [|reflexivity]. exfalso. apply B.
+    apply (proj1 (contains_spec b x Hb (inv_bound a x Ha A))). exact C.
+Qed.
+
+Theorem andnot_spec a b : bm_Inv a -> bm_Inv b ->
+  bm_Inv (bm_andnot a b) /\ forall x, In x (bm_abs (bm_andnot a b)) <-> In x (bm_abs a) /\ ~ In x (bm_abs b).
+Proof.
+  intros Ha Hb. unfold bm_andnot. destruct (diff_general a b bm_create Ha Hb inv_create) as [J1 J2].
+  split; [exact J1|]. intro x. rewrite (J2 x), abs_create. cbn [In]. tauto.
+Qed.
+
+Theorem xor_spec a b : bm_Inv a -> bm_Inv b ->
+  bm_Inv (bm_xor a b) /\
+  forall x, In x (bm_abs (bm_xor a b)) <-> (In x (bm_abs a) /\ ~ In x (bm_abs b)) \/ (In x (bm_abs b) /\ ~ In x (bm_abs a)).
+Proof.
+  intros Ha Hb. unfold bm_xor. destruct (diff_general a b bm_create Ha Hb inv_create) as [I1 I2].
+  destruct (diff_general b a _ Hb Ha I1) as [J1 J2].
+  split; [exact J1|]. intro x. rewrite (J2 x), (I2 x), abs_create. cbn [In]. tauto.
+Qed.
